@@ -74,23 +74,52 @@ Proof.
   destruct (Rltb hi x) eqn:E2; [apply Rltb_true in E2; lra|]. reflexivity.
 Qed.
 
-(** the increment keeps the cumulative factor inside [min,max] *)
-Lemma increment_bounds (S : @settings R) nrm cum :
-  SettingsOk S -> 0 < cum ->
-  eq_min S <= cum * increment OpsR S nrm cum <= eq_max S.
+(** the clip returns a value between the smaller and the larger of its two bounds, in whatever
+    order they are given (with lo > hi it returns lo or hi, never x) *)
+Lemma clip_between_gen x lo hi : Rmin lo hi <= clip OpsR x lo hi <= Rmax lo hi.
 Proof.
-  intros [Hm Hmm] Hc. unfold increment.
-  set (x := rsqrt OpsR (zero_to_one OpsR nrm)). cbn [div OpsR].
-  assert (Hlo : eq_min S / cum <= eq_max S / cum).
-  { unfold Rdiv. apply Rmult_le_compat_r; [left; apply Rinv_0_lt_compat; exact Hc | exact Hmm]. }
-  pose proof (clip_between x _ _ Hlo) as [H1 H2].
+  unfold clip. cbn [ltb OpsR].
+  pose proof (Rmin_l lo hi). pose proof (Rmin_r lo hi). pose proof (Rmax_l lo hi). pose proof (Rmax_r lo hi).
+  destruct (Rltb x lo) eqn:E1; [lra|]. apply Rltb_false in E1.
+  destruct (Rltb hi x) eqn:E2; [lra|]. apply Rltb_false in E2. lra.
+Qed.
+Lemma clip_swapped x lo hi : hi < lo -> clip OpsR x lo hi = lo \/ clip OpsR x lo hi = hi.
+Proof.
+  intros H. unfold clip. cbn [ltb OpsR].
+  destruct (Rltb x lo) eqn:E1; [left; reflexivity|]. apply Rltb_false in E1.
+  destruct (Rltb hi x) eqn:E2; [right; reflexivity|]. apply Rltb_false in E2. lra.
+Qed.
+
+(** cum * clip(x, min/cum, max/cum) lies between the smaller and the larger of min, max *)
+Lemma clip_cum_bounds_gen (S : @settings R) x cum :
+  SettingsPos S -> 0 < cum ->
+  slo S <= cum * clip OpsR x (eq_min S / cum) (eq_max S / cum) <= shi S.
+Proof.
+  intros [Hm HM] Hc. unfold slo, shi.
+  pose proof (clip_between_gen x (eq_min S / cum) (eq_max S / cum)) as [H1 H2].
   set (w := clip OpsR x (eq_min S / cum) (eq_max S / cum)) in *.
+  assert (Hi : 0 < / cum) by (apply Rinv_0_lt_compat; exact Hc).
+  assert (L : Rmin (eq_min S) (eq_max S) / cum <= Rmin (eq_min S / cum) (eq_max S / cum)).
+  { apply Rmin_glb; unfold Rdiv; apply Rmult_le_compat_r; try lra; [apply Rmin_l | apply Rmin_r]. }
+  assert (U : Rmax (eq_min S / cum) (eq_max S / cum) <= Rmax (eq_min S) (eq_max S) / cum).
+  { apply Rmax_lub; unfold Rdiv; apply Rmult_le_compat_r; try lra; [apply Rmax_l | apply Rmax_r]. }
   split.
-  - replace (eq_min S) with (cum * (eq_min S / cum)) by (field; lra).
+  - replace (Rmin (eq_min S) (eq_max S)) with (cum * (Rmin (eq_min S) (eq_max S) / cum)) by (field; lra).
     apply Rmult_le_compat_l; lra.
-  - replace (eq_max S) with (cum * (eq_max S / cum)) by (field; lra).
+  - replace (Rmax (eq_min S) (eq_max S)) with (cum * (Rmax (eq_min S) (eq_max S) / cum)) by (field; lra).
     apply Rmult_le_compat_l; lra.
 Qed.
+Lemma increment_bounds (S : @settings R) nrm cum :
+  SettingsPos S -> 0 < cum ->
+  slo S <= cum * increment OpsR S nrm cum <= shi S.
+Proof. intros HS Hc. unfold increment. cbn [div OpsR]. apply clip_cum_bounds_gen; assumption. Qed.
+
+Lemma settings_ok_pos (S : @settings R) : SettingsOk S -> SettingsPos S.
+Proof. intros [H1 H2]. split; lra. Qed.
+Lemma settings_ok_lo (S : @settings R) : SettingsOk S -> slo S = eq_min S.
+Proof. intros [H1 H2]. unfold slo. apply Rmin_left. exact H2. Qed.
+Lemma settings_ok_hi (S : @settings R) : SettingsOk S -> shi S = eq_max S.
+Proof. intros [H1 H2]. unfold shi. apply Rmax_right. exact H2. Qed.
 
 (** a zero norm leaves an identity factor unchanged when 1 is admissible *)
 Lemma increment_zero (S : @settings R) :
